@@ -32,7 +32,7 @@ import (
 
 // go f(args)
 func (f *fnTr) goStmt(s *ast.GoStmt, rest []item, en env, defers []deferred) string {
-	if !f.u.spawn {
+	if !f.u.spawn && !f.u.chans {
 		fail("statement %T", s)
 	}
 	if len(f.loops) > 0 || f.inEndless {
@@ -45,7 +45,7 @@ func (f *fnTr) goStmt(s *ast.GoStmt, rest []item, en env, defers []deferred) str
 	if _, local := en.lookup(id.Name); local || universe[id.Name] {
 		fail("go statement on %s, which is not a package-level function", id.Name)
 	}
-	if _, _, translated := f.resolveCall(s.Call, en); translated {
+	if _, _, translated := f.resolveCall(s.Call, en); translated && !f.u.chans { // chans.go: there the goroutine's code IS a translated definition, run by the scheduler model
 		fail("go statement on %s, which this unit translates: its body would not be part of the spawning function", id.Name)
 	}
 	if s.Call.Ellipsis.IsValid() {
